@@ -566,9 +566,20 @@ def check_equality(ctx, rng, ids_):
     else:
         others.append(list(a))
         others.append(tuple(a))
+    # ... nor is an object equal to a rendering or a part of itself
+    try:
+        markup = str(a)
+        others += [markup, ht.HTML(markup), a.get_html_string(), repr(a), a.render(), markup.encode("utf-8"), [markup]]
+    except Exception:
+        pass
+    if kind == "tag":
+        others += [a.name, dict(a.attrs), a.attrs, a.children]
     for o in others:
         if a == o or o == a:
             ctx.violation("different-kinds-compare-equal", "%s == %r" % (kind, o), wit)
+            return
+        if not (a != o):
+            ctx.violation("different-kinds-compare-equal", "%s != %r is False" % (kind, o), wit)
             return
 
 
